@@ -3,7 +3,7 @@
 Pattern B.
 (T) TLC enumerates the input rows from spec/CfgSyntax.tla - structured documents
     (gadget sequences x styles, documented breakages), single-piece mutations of
-    them, every raw string over the 18-class byte alphabet up to a length, the
+    them, every raw string over the 19-class byte alphabet up to a length, the
     shipped files - and checks on every structured document that the documented
     rule Expected(doc) satisfies the C20 predicates and round-trips in the model.
 (B) harness/cfgcheck runs the real cfgparser.Read on every row in a child
@@ -30,6 +30,15 @@ SPLITS_ALL = tuple((100, i, e) for i in (155, 156, 157) for e in (0, 1)) + ((1, 
 SPLITS_QUICK = tuple((100, i, e) for i in (156, 157) for e in (0, 1))
 DEPTHS_ALL = (1, 2, 3, 255, 256, 257, 300)
 LADDERS_ALL = (3, 10, 24)
+# directive names over the character-class alphabet of CfgSyntax.tla (NameClasses, 9 classes, index 1..9):
+# code = 1000000 * position + classes as base-16 digits, first character lowest.  Position 0 (top level): every name
+# of 1 and 2 characters; positions 1-4 (inside a block, block header, inside an imported snippet, in an imported file): every first
+# character followed by an ASCII letter, and alone; position 4 = in a file imported inside a block (layer i).  Thorough adds the names of 3 characters at top level.
+NCLS = 9
+NAMES_QUICK = tuple([a for a in range(1, NCLS + 1)] + [a + 16 * b for a in range(1, NCLS + 1) for b in range(1, NCLS + 1)]
+                    + [1000000 * pos + a + 16 * b for pos in (1, 2, 3, 4) for a in range(1, NCLS + 1) for b in (0, 1)])
+NAMES_ALL = NAMES_QUICK + tuple(a + 16 * b + 256 * c for a in range(1, NCLS + 1) for b in range(1, NCLS + 1)
+                                for c in range(1, NCLS + 1))
 
 CFG = """SPECIFICATION %(spec)s
 CONSTANTS
@@ -44,6 +53,7 @@ CONSTANTS
   FileChains = %(chains)s
   SnipSplits = %(snipsplits)s
   FileSplits = %(filesplits)s
+  NameCodes = %(namecodes)s
   Devs = %(devs)s
 %(tail)s
 CHECK_DEADLOCK FALSE
@@ -73,7 +83,8 @@ def split_code(outer, inner, empty):
 
 
 def cfg(spec="SpecDoc", maxitems=0, styles=STYLE_PLAIN, mutlen=0, rawlen=0, depths=(3,), ladders=(3,),
-        devs=(), inv="EmitRows", post=None, mcloses=(), snipdeeps=(), chains=(), snipsplits=(), filesplits=()):
+        devs=(), inv="EmitRows", post=None, mcloses=(), snipdeeps=(), chains=(), snipsplits=(), filesplits=(),
+        namecodes=()):
     tail = ("INVARIANTS " + inv) if inv else ""
     if post:
         tail += "\nPOSTCONDITION " + post
@@ -81,7 +92,7 @@ def cfg(spec="SpecDoc", maxitems=0, styles=STYLE_PLAIN, mutlen=0, rawlen=0, dept
                       depths=tla_set(list(depths)), ladders=tla_set(list(ladders)), devs=tla_set(list(devs)), tail=tail,
                       mcloses=tla_set(list(mcloses)), snipdeeps=tla_set(list(snipdeeps)), chains=tla_set([1000 * k + d for k, d in chains]),
                       snipsplits=tla_set([split_code(*x) for x in snipsplits]),
-                      filesplits=tla_set([split_code(*x) for x in filesplits]))
+                      filesplits=tla_set([split_code(*x) for x in filesplits]), namecodes=tla_set(list(namecodes)))
 
 
 def rows_of(r):
@@ -215,13 +226,14 @@ def run(ctx, replay):
         snipdeeps = SNIPDEEPS_ALL if thorough else (200,)
         chains = CHAINS_ALL if thorough else ((1, 50), (1, 200), (4, 150))
         splits = SPLITS_ALL if thorough else SPLITS_QUICK
+        names = NAMES_ALL if thorough else NAMES_QUICK
         rawlen = 4 if thorough else 3
         jobs = {
             # every document of <= 2 gadgets x styles; the documented rule must satisfy the property
             "doc": dict(workers=4, timeout=1500,
                         cfg_text=cfg(maxitems=2, styles=styles, depths=depths, ladders=ladders, inv="RowAndModel",
                                      mcloses=mcloses, snipdeeps=snipdeeps, chains=chains,
-                                     snipsplits=splits, filesplits=splits)),
+                                     snipsplits=splits, filesplits=splits, namecodes=names)),
             # as-is: with the deviations switched on the rule itself violates the property
             "asis": dict(workers=2, timeout=600,
                          cfg_text=cfg(maxitems=2, styles=STYLE_PLAIN, devs=ALL_DEVS, ladders=(3, 24), inv="ModelHolds")),
@@ -315,7 +327,7 @@ def run(ctx, replay):
 
     tcfg = cfg(spec="TSpec", maxitems=0, depths=DEPTHS_ALL, ladders=LADDERS_ALL, mcloses=MCLOSES_ALL,
                snipdeeps=SNIPDEEPS_ALL, chains=CHAINS_ALL, snipsplits=SPLITS_ALL, filesplits=SPLITS_ALL,
-               devs=open_devs, inv=None, post="Post")
+               namecodes=NAMES_ALL, devs=open_devs, inv=None, post="Post")
     verdicts, by_t = validate_parallel(ctx, events, tcfg, batch=4000 if thorough else max(1000, -(-len(events) // 8)), jobs=8)
 
     ok = drift = 0
@@ -371,9 +383,11 @@ def run(ctx, replay):
     ctx.cov["violated_predicates"] = preds
     ctx.cov["rule"] = (
         "rows = states of spec/CfgSyntax.tla enumerated by TLC: structured documents (all sequences of <= 2 of the "
-        "gadgets x styles; deep-nesting and import-ladder gadgets alone), every single-piece mutation (drop / insert "
-        "one of 12 pieces) of the one-gadget documents (seeded sample of 1500 in quick), every string over the "
-        "18-class byte alphabet up to length %d, the two shipped files, the file-import scenarios, plus -simulate rows (documents of <= 4 gadgets "
+        "gadgets x styles; deep-nesting and import-ladder gadgets alone; directive names over a 9-class character alphabet "
+        "- ASCII / non-ASCII letters and decimal digits, punctuation, other numbers, combining marks, symbols - of 1-2 "
+        "(thorough 3) characters at top level, inside a block, as block header, inside an imported snippet and in an "
+        "imported file), every single-piece mutation (drop / insert one of 13 pieces) of the one-gadget documents (seeded sample of 1500 in quick), every string over the "
+        "19-class byte alphabet up to length %d, the two shipped files, the file-import scenarios, plus -simulate rows (documents of <= 4 gadgets "
         "with mutation, raw strings up to 16 classes), de-duplicated by (layer, source bytes, document); rows the model "
         "marks as resource-exhausting deviations: all in thorough, 4 per deviation and document length in quick. "
         "non-trivial = distinct row whose observed outcome is not the empty tree (an error, a crash class, or a tree "
@@ -390,7 +404,7 @@ def run(ctx, replay):
     if shipped:
         ctx.cov["shipped_files"] = shipped
     ctx.assumptions += [
-        "\"every byte sequence\" is decided only inside the stated bounds: exhaustive over the 18-class alphabet up to the "
+        "\"every byte sequence\" is decided only inside the stated bounds: exhaustive over the 19-class alphabet up to the "
         "stated length, the gadget grammar and its single-piece mutations; beyond that seeded simulation",
         "imports of files are explored only through the file scenarios of layer 'i' (self-import, 2- and 3-cycles, a file "
         "introducing a snippet, chains of files with deep blocks) written by the harness into an empty directory; the "
@@ -415,8 +429,8 @@ META = {
     "text": "Bounded exploration of a model-generated case space: TLC enumerates all documents of <= 2 grammar gadgets "
             "(67 gadgets incl. breakages, macros, snippets/imports forward/backward/self, env placeholders also inside "
             "snippets / macro values / block headers; deep nesting, import ladders, deep snippets imported deep and the "
-            "macro-closes-block repetition alone; file-import scenarios: cycles, chains of deep files) in 3 (quick) / 9 (thorough) rendering styles, all single-piece mutations of the "
-            "one-gadget documents, every string over an 18-class byte alphabet up to length 3 (quick) / 4 (thorough), the "
+            "macro-closes-block repetition alone; directive names over a character-class alphabet incl. non-ASCII letters / decimal digits / marks in five positions; file-import scenarios: cycles, chains of deep files) in 3 (quick) / 9 (thorough) rendering styles, all single-piece mutations of the "
+            "one-gadget documents, every string over an 19-class byte alphabet up to length 3 (quick) / 4 (thorough), the "
             "shipped files, plus seeded simulation beyond those bounds; it checks that the documented rule satisfies the "
             "C20 predicates on every structured document, and evaluates the same predicates (no panic / time-out / memory or "
             "descriptor exhaustion, nothing unexpanded, no environment placeholder left, well-formed names, bounded nesting, canonical print re-parses to the same "
